@@ -351,6 +351,14 @@ Definition wire (r : request) : request :=
      r_rawquery := r_rawquery r; r_fragment := []; r_body := Some (body_bytes r);
      r_chunked := r_chunked r; r_sso_sig := r_sso_sig r; r_kid := r_kid r; r_gap_sig := r_gap_sig r |}.
 
+(* The protocol on the upstream connection. upstreamTransport.getTransport (reverse_proxy.go:48-71) builds
+   an http.Transport with its own DialContext and TLSClientConfig and does not set ForceAttemptHTTP2;
+   net/http then never negotiates HTTP/2, so http AND https upstreams (also ones that offer h2 by ALPN)
+   are spoken to in HTTP/1.1 and [wire] above is the h1 wire. (Over h2 the client would split the
+   Cookie header into one field per pair and the upstream's server re-join them with "; " — not the
+   ";"-joined value deleteCookie built and both signers signed.) *)
+Definition upstream_proto : str := [72;84;84;80;47;49;46;49]. (* "HTTP/1.1" *)
+
 (* The request as it is when the signing handler runs, and as the upstream receives it.
    Handler order (reverse_proxy.go:107-129): deleteCookie -> sign (HMAC, then RSA) -> [timeout] ->
    ReverseProxy (Director, hop-by-hop removal, X-Forwarded-For) -> transport. *)
